@@ -47,3 +47,16 @@ claimed["C19"] = (
  "BFS over {AddProvider, AddProviderDeferred(+DetectCycles), RemoveProvider, Clear, DetectCycles} on pools of 2 and 3 node identities (type/key/group mixed): with dependency lists of length <=1 the canonical state space CLOSES (depth 6 / 8), which covers operation sequences of any length over that alphabet; with lists of length 2 the search is cut at a state cap and reported as not exhaustive. After every transition all 12 queries are issued twice in different orders and compared with the digraph; a rejected add must leave the cache-free deep dump unchanged. Thorough adds a 4-identity pool.",
  "immediate adds are only issued on graphs that are acyclic and whose deferred adds were completed by DetectCycles; degree-based queries are compared only then",
  "DESIGN.md 6/C19")
+claimed["C05"] = (
+ "exhaustive enumeration of all digraphs (graph component and container) with controlled map-iteration order, against a plain-digraph reference",
+ "Graph component: all 65,536 digraphs on 4 labelled nodes and all 512 on 3, x deferred+DetectCycles / immediate adds x both dependency-list orders x canonical and reversed map base order, plus every single map-range permutation for 3-node graphs (4-node in thorough): verdict == reference DFS, reported path is a cycle of real edges. Container: all digraphs on <=3 services x all per-target forms (plain/keyed/group) x 3 lifetimes, all digraphs on 4 services x uniform forms: circular-dependency error (through BuildError) iff cyclic, path checked, every identity of accepted sets resolves.",
+ "no claim beyond 4 nodes/services",
+ "DESIGN.md 6/C05")
+claimed["C07"] = (
+ "exhaustive enumeration of (DAG x lifetime assignment x dependency form) registration sets on the real container against the reference lifetime rule",
+ "All DAGs on <=4 services x all 3^n lifetime assignments x forms (per-target plain/keyed/group for n<=3, uniform for n=4, interface aliases, In-struct and positional): LifetimeConflictError through BuildError iff the model finds a singleton/transient -> scoped edge; after success every identity is resolved in a scope, its child and again, and no recorded singleton/transient constructor invocation may have received a scoped instance.",
+ "no claim beyond 4 services", "DESIGN.md 6/C07")
+claimed["C08"] = (
+ "exhaustive enumeration of registration sets with unregistered / optional dependencies on the real container against the reference resolvability rule",
+ "All DAGs on <=3 services (4 with 5 lifetime patterns; all 81 in thorough) x every subset of non-root services unregistered x lifetimes x {plain, keyed, group} x optional-ness patterns x dependent form {In constructor, positional constructor, void initializer, error-only initializer}: Build succeeds iff no lifetime conflict and no missing required dependency; after success no resolution or scope creation fails with 'service not found'.",
+ "no claim beyond 4 services", "DESIGN.md 6/C08")
